@@ -8,16 +8,18 @@ CLAUSES = ['count', 'fixed', 'gutter', 'outer', 'fill']
 
 
 def shape(c):
-    """Cheap shape histogram of a K case (from the C ints): what the templates contain."""
-    # W H pad*4 bor*4 gap(2x2) jc ac | templates ...
+    """Cheap shape histogram of a K case (from the C ints): what the templates and items contain."""
+    # Wk W Hk H avail(2x2) pad*4 bor*4 gap(2x2) jc ac | templates ... | autos | items
     out = set()
-    if any(c[2:10]):
+    if c[0] == 1 or c[2] == 1:
+        out.add('indefinite container axis')
+    if any(c[8:16]):
         out.add('padding/border')
-    if c[10] == 1 or c[12] == 1:
+    if c[16] == 1 or c[18] == 1:
         out.add('percent gap')
-    if c[14] or c[15]:
+    if c[20] or c[21]:
         out.add('content alignment')
-    i = 16
+    i = 22
     for axis in range(2):
         n = c[i]
         i += 1
@@ -42,11 +44,31 @@ def shape(c):
                     out.add('percent')
                 if mn == 0 and mx == 0:
                     out.add('px')
+                if mn == 6 or mx == 6:
+                    out.add('min-content')
+                if mn == 7 or mx == 7:
+                    out.add('max-content')
+                if mx in (3, 4):
+                    out.add('fit-content')
+                if mn in (5, 6, 7) and mx in (0, 1):
+                    out.add('minmax(intrinsic, fixed)')
     for axis in range(2):
         n = c[i]
         i += 1 + 4 * n
         if n:
             out.add('grid-auto tracks')
+    n = c[i]
+    i += 1
+    spans = set()
+    for k in range(n):
+        it = c[i + 12 * k:i + 12 * k + 12]
+        spans.add(max(it[1], it[3]))
+        if any(it[6:10]):
+            out.add('item margins')
+        if it[10] or it[11]:
+            out.add('item overflow hidden')
+    for sp in spans:
+        out.add('max item span %d' % sp)
     return out
 
 
@@ -83,6 +105,14 @@ def run(rep, tier, seed, replay=None):
     except RuntimeError as ex:
         cases, impl = [], []
         rep.add_broken('correspondence', 'vh c09 cases', str(ex))
+    # `O` lines: the case once more in the stage-1 encoding (follows its R line) when it is in the stage-1 class
+    old_cases, old_impl, last_r = [], [], None
+    for l in out.split('\n'):
+        if l.startswith('R '):
+            last_r = [int(x) for x in l.split()[1:]]
+        elif l.startswith('O ') and last_r is not None:
+            old_cases.append([int(x) for x in l.split()[1:]])
+            old_impl.append(last_r)
     if hung is not None:
         how = 'does not terminate (killed after 90 s)' if rc == 124 else 'aborts (exit code %s)' % rc
         rep.add_broken('correspondence', 'vh c09 cases', 'the implementation %s on a K case' % how)
@@ -96,12 +126,19 @@ def run(rep, tier, seed, replay=None):
     if cases:
         try:
             with Lock('coq'):
-                rcm, outm, _ = coq_make(['Model/GridTracksRun.vo'])
+                rcm, outm, _ = coq_make(['Model/GridTracksRun.vo', 'Model/GridIntrinsicRun.vo'])
             if rcm != 0:
                 raise RuntimeError(outm[-1500:])
-            model = run_model('C09', 'From TV Require Import Model.GridTracksRun.', 'run_case', cases, scope='Z', elem='list Z', batch=200)
-            bad = diff_results(rep, 'DetailedGridInfo (track counts, sizes, gutters), container size, item offsets vs Model.GridTracksRun over F32',
-                               cases, impl, model)
+            # K2: every case through the whole track_sizing_algorithm with the full step 11.5 (Model/GridIntrinsic.v)
+            model = run_model('C09', 'From TV Require Import Model.GridIntrinsicRun.', 'run_case2', cases, scope='Z', elem='list Z', batch=200)
+            bad = diff_results(rep, 'DetailedGridInfo (track counts, sizes, gutters), container size, item offsets vs Model.GridIntrinsicRun '
+                                    '(track_sizing_algorithm_full) over F32', cases, impl, model)
+            # K1: the stage-1 class also through the stage-1 runner (resolve_intrinsic_span1: what the q_axis witnesses use)
+            if old_cases:
+                k1 = old_cases if tier != 'quick' or mine else old_cases[:150]
+                model1 = run_model('C09a', 'From TV Require Import Model.GridTracksRun.', 'run_case', k1, scope='Z', elem='list Z', batch=200)
+                bad += diff_results(rep, 'stage-1 class vs Model.GridTracksRun (resolve_intrinsic_span1) over F32', k1, old_impl[:len(k1)], model1)
+                rep.cov['stage1_runner_cases'] = len(k1)
         except RuntimeError as ex:
             rep.add_broken('correspondence', 'model evaluation', str(ex)[-1500:])
     hist = {}
